@@ -1,4 +1,5 @@
 import Kio.Proofs.RecRead
+import Kio.Proofs.RecReadFloor
 import Kio.Proofs.FloatSec
 import Kio.Model.Current
 /-!
@@ -15,6 +16,18 @@ theorem read_spec_partial (cfg : RecCfg) (b : Spec.WireBatch) (bs : Bytes)
     (h : Spec.batchBytes b = some bs) (hts : ∀ r ∈ b.records, r.wholeSecond b.maxTimestamp)
     (rest : Bytes) : readBatch cfg (bs ++ rest) = .ok (b.toRec bs, rest) :=
   Kio.readBatch_spec_partial Kio.float_sec cfg b bs h hts rest
+
+/-- **what reading returns for every millisecond timestamp** (the exact content of known finding
+    C18/I): for every reference-encoded batch whose record timestamps lie in the datetime range and
+    whose seconds do not exceed the batch's max timestamp, every header field, offset, key, value and
+    header is returned exactly as encoded and exactly the following bytes are left — and every record
+    timestamp is *floored to whole seconds* (`toRecFloor`).  With whole-second timestamps this is
+    `read_spec_partial`.  The float fact it rests on (`float_floor`: the seconds part of
+    `fromtimestamp(ms / 1000)` is ⌊ms/1000⌋ for all ms up to year 9999) is proved, not assumed. -/
+theorem read_spec_floor (cfg : RecCfg) (b : Spec.WireBatch) (bs : Bytes)
+    (h : Spec.batchBytes b = some bs) (hts : ∀ r ∈ b.records, r.inRange b.maxTimestamp)
+    (rest : Bytes) : readBatch cfg (bs ++ rest) = .ok (b.toRecFloor bs, rest) :=
+  Kio.readBatch_floor cfg b bs h hts rest
 
 /-- a batch is returned only when the magic byte is 2 -/
 theorem magic (cfg : RecCfg) (bs : Bytes) (b : RecordBatch) (rest : Bytes)
